@@ -7,11 +7,16 @@ use std::collections::HashMap;
 
 pub struct UF {
     f: Facts,
+    keys: Vec<String>, // the keys the spec configuration talks about (any other key in the store is reported)
 }
 
 impl UF {
-    pub fn new(_cfg: &Value) -> UF {
-        UF { f: Facts::new() }
+    pub fn new(cfg: &Value) -> UF {
+        let keys = match cfg["Keys"].as_array() {
+            Some(a) => a.iter().map(|k| k.as_str().unwrap().to_string()).collect(),
+            None => vec!["a".to_string(), "b".to_string(), "o".to_string()],
+        };
+        UF { f: Facts::new(), keys }
     }
     fn tag(v: Option<&RV>) -> String {
         match v {
@@ -30,14 +35,15 @@ impl UF {
     fn obs(&self, ok: bool) -> Value {
         let all = self.f.get_all_facts();
         let mut d = Map::new();
-        for k in ["a", "b", "o"] {
+        for k in &self.keys {
+            let k = k.as_str();
             let t = Self::tag(all.get(k));
             // the by-name accessors must agree with the full map
             let t2 = Self::tag(self.f.get(k).as_ref());
             let c = self.f.contains(k);
             d.insert(k.to_string(), if t == t2 && c == (t != "abs") { json!(t) } else { json!(format!("views-disagree:{}/{}/{}", t, t2, c)) });
         }
-        let extra: Vec<&String> = all.keys().filter(|k| !["a", "b", "o"].contains(&k.as_str())).collect();
+        let extra: Vec<&String> = all.keys().filter(|k| !self.keys.contains(k)).collect();
         if !extra.is_empty() || self.f.count() != all.len() {
             return json!({"ok": ok, "data": d, "extra_keys": extra});
         }
